@@ -137,9 +137,13 @@ From PV Require Import Proofs.C04Lemmas Proofs.C09ComposeAll.
 
 (** every recorded stationary sample (empty gradient dictionary) is valued at the world's stationary point
     (provided no linear-optimization step is taken along the zero direction: such a step records an empty
-    gradient dictionary at a point of the set that need not be the stationary point) *)
+    gradient dictionary at a point of the set that need not be the stationary point; likewise no Bregman gradient
+    step to the zero dual point and no Bregman proximal step of step size 0 -- for a well-formed program, whose
+    Bregman proximal steps have a positive step size, the dual point recorded by such a step mentions the fresh
+    subgradient leaf) *)
 Theorem C09_stationary_samples_at_stationary_point :
   forall (E : ips) (W : @world E) (ops : list mop) (vs : (nat -> E) * (nat -> R)) (par : nat -> Q) (f : nat) sm,
+    mwf ops minit = true ->
     forallb linopt_dir_nonzero ops = true ->
     In sm (f_stat (fstate_of par (mrun ops minit) f)) ->
     In sm (f_points (fstate_of par (mrun ops minit) f)) /\ s_g sm = [] /\
@@ -559,3 +563,225 @@ Example C09_linesearch_example :
       (run_plan plan_SmoothStronglyConvexFunction
          (fstate_of (fun p => match p with 0%nat => qL | 1%nat => qmu | _ => 0%Q end) (mrun linesearch_program minit) 0)).
 Proof. exact linesearch_example. Qed.
+
+(** * The remaining primitive steps: epsilon_subgradient_step, bregman_gradient_step, bregman_proximal_step
+
+    [MEpsSub f p] models  x, g0, f0, epsilon = epsilon_subgradient_step(p, f, gamma): the fresh point leaf g0, the
+    oracle call f.value(p) (fresh gradient and value leaves, recorded as for [MEval]), the fresh value leaf epsilon,
+    the fresh leaves y, fy, the sample (y, g0, fy) and the constraint  f0 + (g0 * y - fy) - g0 * p <= epsilon  added to
+    the function.  [MBregGrad h gx0 sx0 gamma] models  x, sx, hx = bregman_gradient_step(gx0, sx0, h, gamma): fresh
+    leaves x, hx and the sample (x, sx0 - gamma gx0, hx) on the mirror map.  [MBregProx h f sx0 gamma] models
+    x, sx, hx, gx, fx = bregman_proximal_step(sx0, h, f, gamma): fresh leaves x, gx, fx, hx, the sample (x, gx, fx) on
+    f and then (x, sx0 - gamma gx, hx) on h.  What is recorded, for every state (compared with the real steps by the
+    recording stream): *)
+From PV Require Import Proofs.C09Steps.
+
+Theorem C09_new_steps_record :
+  forall s : mstate,
+  (forall f p, mstep s (MEpsSub f p) =
+     mkM (3 + m_np s) (3 + m_ne s)
+         (m_samples s ++ [(f, (p, [(S (m_np s), 1%Q)], [(KF (m_ne s), 1%Q)]));
+                          (f, ([(S (S (m_np s)), 1%Q)], [(m_np s, 1%Q)], [(KF (S (S (m_ne s))), 1%Q)]))])
+         (m_cons s ++ [(f, epssub_cons (m_np s) (m_ne s) p)])) /\
+  (forall h gx0 sx0 gamma, mstep s (MBregGrad h gx0 sx0 gamma) =
+     mkM (1 + m_np s) (1 + m_ne s)
+         (m_samples s ++ [(h, ([(m_np s, 1%Q)], breg_dual sx0 gx0 gamma, [(KF (m_ne s), 1%Q)]))]) (m_cons s)) /\
+  (forall h f sx0 gamma, mstep s (MBregProx h f sx0 gamma) =
+     mkM (2 + m_np s) (2 + m_ne s)
+         (m_samples s ++ [(f, ([(m_np s, 1%Q)], [(S (m_np s), 1%Q)], [(KF (m_ne s), 1%Q)]));
+                          (h, ([(m_np s, 1%Q)], breg_dual sx0 [(S (m_np s), 1%Q)] gamma, [(KF (S (m_ne s)), 1%Q)]))])
+         (m_cons s)).
+Proof. exact new_steps_record. Qed.
+Print Assumptions C09_new_steps_record.
+
+(** In the real run the fresh leaves are valued by the world's epsilon-subgradient oracle ([epssub], every world has
+    one: [epssub_spec]), mirror map inverse ([mirror], [mirror_genuine], flag [has_mirror]) and Bregman proximal
+    operator ([bprox], [bprox_genuine], flag [has_bprox]; [mwf] asks for a positive step size).  The theorems above
+    ([C09_recorded_samples_are_genuine], [C09_existing_leaves_keep_values], [C09_free_leaves_keep_values],
+    [C09_recorded_step_constraints_hold]) are about ALL programs, these steps included.  What the recorded
+    epsilon-subgradient constraint means under any valuation (g0 is leaf n, y leaf S (S n); f0, epsilon, fy the value
+    leaves e, S e, S (S e)): *)
+Theorem C09_epsilon_subgradient_constraint_meaning :
+  forall (E : ips) (rho : nat -> E) (phi : nat -> R) (n e : nat) (p : pdict),
+    DictLemmas.NoDupKeys nat p ->
+    (holds rho phi (epssub_cons n e p) <->
+     phi e + (inner (rho n) (rho (S (S n))) - phi (S (S e))) - inner (rho n) (evalP rho p) <= phi (S e)).
+Proof. exact (@epssub_constraint_meaning). Qed.
+Print Assumptions C09_epsilon_subgradient_constraint_meaning.
+
+(** ... and in the real run: the values given to the leaves g0 and epsilon make g0 an epsilon-subgradient of F at the
+    value of p in the first-principles sense (for all z in dom F: F z >= F x0 + <g0, z - x0> - eps), for every world
+    whose genuine samples of f are subgradient samples of F *)
+Theorem C09_epsilon_subgradient_step_real :
+  forall (E : ips) (W : @world E) (F : @fn E) (f : nat) (p : pdict) (s : mstate) (vs : (nat -> E) * (nat -> R)),
+    (forall t, Gen W f t -> genuine_sub F t) -> dom F (evalP (fst vs) p) ->
+    let vs' := wstep W vs s (MEpsSub f p) in
+    StepsSpec.eps_subgrad F (snd vs' (S (m_ne s))) (evalP (fst vs) p) (fst vs' (m_np s)).
+Proof. exact (@epssub_step_real). Qed.
+Print Assumptions C09_epsilon_subgradient_step_real.
+
+(** an epsilon-subgradient oracle of a function F whose conjugate is attained meets the specification (C08) *)
+Theorem C09_epsilon_subgradient_oracle_meets_specification :
+  forall (E : ips) (F : @fn E) (sel : E -> E) (g : E -> E) (ep : E -> R) (y : E -> E),
+    (forall x0, StepsSpec.eps_subgrad F (ep x0) x0 (g x0)) -> (forall x0, subgrad F (y x0) (g x0)) ->
+    forall x0 : E,
+      genuine_sub F (y x0, g x0, val F (y x0)) /\
+      snd (sel x0, val F x0) + (inner (g x0) (y x0) - val F (y x0)) - inner (g x0) x0 <= ep x0.
+Proof. exact (@is_epssub_spec). Qed.
+Print Assumptions C09_epsilon_subgradient_oracle_meets_specification.
+
+(** the dual point recorded by the two Bregman steps, under any valuation *)
+Theorem C09_bregman_dual_point_meaning :
+  forall (E : ips) (rho : nat -> E) (sx0 g : pdict) (gamma : Q),
+    DictLemmas.NoDupKeys nat sx0 -> DictLemmas.NoDupKeys nat g ->
+    veq (evalP rho (breg_dual sx0 g gamma)) (vsub (evalP rho sx0) (vscal (Q2R gamma) (evalP rho g))).
+Proof. exact (@breg_dual_meaning). Qed.
+Print Assumptions C09_bregman_dual_point_meaning.
+
+(** the minimiser of  gamma <g0, .> + h - <s0, .>  is the minimiser of  h - <s0 - gamma g0, .>; for a Gateaux-
+    differentiable mirror map it meets the specification of [mirror] (C08's optimality theorem) *)
+Theorem C09_bregman_gradient_step_dual_form :
+  forall (E : ips) (H : @dfn E) (gamma : R) (g0 s0 x : E),
+    StepsSpec.is_bregman_gradient H gamma g0 s0 x <->
+    StepsSpec.is_bregman_gradient H 1 vzero (vsub s0 (vscal gamma g0)) x.
+Proof. exact (@bregman_gradient_dual). Qed.
+Print Assumptions C09_bregman_gradient_step_dual_form.
+
+Theorem C09_mirror_map_meets_specification :
+  forall (E : ips) (H : @dfn E) (mir : E -> E),
+    StepsSpec.gateaux H -> (forall s, StepsSpec.is_bregman_gradient H 1 vzero s (mir s)) ->
+    forall s, genuine_grad H (mir s, s, dval H (mir s)).
+Proof. exact (@is_mirror_spec). Qed.
+Print Assumptions C09_mirror_map_meets_specification.
+
+(** the minimiser of  gamma F + h - <s0, .>  (convex F, Gateaux-differentiable h, gamma > 0) meets the specification of
+    [bprox] with gx = (s0 - grad h(x)) / gamma (C08's optimality theorem) *)
+Theorem C09_bregman_proximal_operator_meets_specification :
+  forall (E : ips) (F : @fn E) (H : @dfn E) (bp : R -> E -> E),
+    StepsSpec.convex_fn F -> StepsSpec.gateaux H ->
+    (forall gamma s0, 0 < gamma -> StepsSpec.is_bregman_prox F H gamma s0 (bp gamma s0)) ->
+    forall gamma s0, 0 < gamma ->
+      let x := bp gamma s0 in let gx := vscal (1 / gamma) (vsub s0 (dgrad H x)) in
+      genuine_sub F (x, gx, val F x) /\ genuine_grad H (x, vsub s0 (vscal gamma gx), dval H x).
+Proof. exact (@is_bprox_spec). Qed.
+Print Assumptions C09_bregman_proximal_operator_meets_specification.
+
+(** composition with C03 in ANY world (in particular a world given the three operations by [with_steps]), for any
+    function index whose genuine samples are those of a real convex / mu-strongly convex L-smooth function *)
+Theorem C09_run_satisfies_class_constraints_convex_any_world :
+  forall (E : ips) (W : @world E) (F : @fn E) (f : nat) (ops : list mop) (vs : (nat -> E) * (nat -> R)),
+    (forall t, Gen W f t -> genuine_sub F t) ->
+    mwf ops minit = true -> Forall op_nodup ops -> steps_ok W ops = true ->
+    all_satisfied (fst (wrun W ops minit vs)) (snd (wrun W ops minit vs))
+      (run_plan plan_ConvexFunction (fstate_of (fun _ => 0%Q) (mrun ops minit) f)).
+Proof. exact (@run_satisfies_convex_any). Qed.
+Print Assumptions C09_run_satisfies_class_constraints_convex_any_world.
+
+Theorem C09_run_satisfies_class_constraints_smooth_strongly_convex_any_world :
+  forall (E : ips) (W : @world E) (mu L : R) (qmu qL : Q) (F : @dfn E) (f : nat) (ops : list mop) (vs : (nat -> E) * (nat -> R)),
+    (forall t, Gen W f t -> genuine_grad F t) ->
+    0 <= mu < L -> smooth_strongly_convex_member mu L F -> Q2R qL = L -> Q2R qmu = mu ->
+    mwf ops minit = true -> Forall op_nodup ops -> steps_ok W ops = true ->
+    let par := fun p => match p with 0%nat => qL | 1%nat => qmu | _ => 0%Q end in
+    all_satisfied (fst (wrun W ops minit vs)) (snd (wrun W ops minit vs))
+      (run_plan plan_SmoothStronglyConvexFunction (fstate_of par (mrun ops minit) f)).
+Proof. exact (@run_satisfies_smooth_strongly_convex_any). Qed.
+Print Assumptions C09_run_satisfies_class_constraints_smooth_strongly_convex_any_world.
+
+(** Non-vacuity: x0 = Point(); s0 = Point(); epsilon_subgradient_step(x0, f, gamma);
+    bregman_gradient_step(g0, s0, f, 1/2); bregman_proximal_step(s0 - g0/2, f, f, 1)  on f = h = x^2 with the
+    epsilon-subgradient oracle g0 = 2 x0 + 1 (eps = 1/4), the mirror map inverse s/2 and the Bregman proximal
+    operator s0 / (2 (1 + gamma)) *)
+Example C09_new_steps_example :
+  forall vs : (nat -> R1) * (nat -> R),
+  mwf steps_program minit = true /\ steps_ok sq_steps_world steps_program = true /\
+  Forall op_nodup steps_program /\ forallb linopt_dir_nonzero steps_program = true /\
+  m_np (mrun steps_program minit) = 8%nat /\ m_ne (mrun steps_program minit) = 6%nat /\
+  List.length (m_samples (mrun steps_program minit)) = 5%nat /\
+  fst (wrun sq_steps_world steps_program minit vs) 2%nat = 2 * (Q2R 1 * fst vs 0%nat + 0) + 1 /\
+  snd (wrun sq_steps_world steps_program minit vs) 1%nat = 1 / 4 /\
+  (exists c, m_cons (mrun steps_program minit) = [(0%nat, c)] /\
+             holds (fst (wrun sq_steps_world steps_program minit vs)) (snd (wrun sq_steps_world steps_program minit vs)) c) /\
+  List.length (g_cons (run_plan plan_ConvexFunction (fstate_of (fun _ => 0%Q) (mrun steps_program minit) 0))) = 20%nat /\
+  all_satisfied (fst (wrun sq_steps_world steps_program minit vs)) (snd (wrun sq_steps_world steps_program minit vs))
+    (run_plan plan_ConvexFunction (fstate_of (fun _ => 0%Q) (mrun steps_program minit) 0)).
+Proof. exact new_steps_example. Qed.
+
+(** * Inexact proximal steps
+
+    [MInexactProx f x0 gamma opt] models  x, gx, fx, w, v, fw, eps_var = inexact_proximal_step(x0, f, gamma, opt)  for the
+    three options: the fresh leaves in the order Python allocates them, the one or two samples recorded on f and the
+    accuracy constraint added to f (compared with the real step by the recording stream): *)
+Theorem C09_inexact_proximal_step_records :
+  forall (s : mstate) (f : nat) (x0 : pdict) (gamma : Q),
+  mstep s (MInexactProx f x0 gamma PDgapI) =
+    mkM (4 + m_np s) (3 + m_ne s)
+        (m_samples s ++ [(f, ([(S (m_np s), 1%Q)], [(m_np s, 1%Q)], [(KF (m_ne s), 1%Q)]));
+                         (f, ([(S (S (m_np s)), 1%Q)], [(S (S (S (m_np s))), 1%Q)], [(KF (S (m_ne s)), 1%Q)]))])
+        (m_cons s ++ [(f, ip_cons PDgapI (m_np s) (m_ne s) x0 gamma)]) /\
+  mstep s (MInexactProx f x0 gamma PDgapII) =
+    mkM (2 + m_np s) (2 + m_ne s)
+        (m_samples s ++ [(f, (ip2_point (m_np s) x0 gamma, [(S (m_np s), 1%Q)], [(KF (m_ne s), 1%Q)]))])
+        (m_cons s ++ [(f, ip_cons PDgapII (m_np s) (m_ne s) x0 gamma)]) /\
+  mstep s (MInexactProx f x0 gamma PDgapIII) =
+    mkM (3 + m_np s) (3 + m_ne s)
+        (m_samples s ++ [(f, ([(m_np s, 1%Q)], [(S (m_np s), 1%Q)], [(KF (S (m_ne s)), 1%Q)]));
+                         (f, ([(S (S (m_np s)), 1%Q)], ip3_grad (m_np s) x0 gamma, [(KF (m_ne s), 1%Q)]))])
+        (m_cons s ++ [(f, ip_cons PDgapIII (m_np s) (m_ne s) x0 gamma)]).
+Proof. exact inexact_prox_records. Qed.
+Print Assumptions C09_inexact_proximal_step_records.
+
+(** In the real run the fresh leaves are valued by the world's approximate proximal operator ([iprox], every world has
+    one: [iprox_spec]; [mwf] asks for a positive step size; for 'PD_gapII' the error leaf e gets x - x0 + gamma gx, so
+    that the recorded point x0 - gamma gx + e evaluates to the approximate proximal point).  The theorems about ALL
+    programs ([C09_recorded_samples_are_genuine], [C09_recorded_step_constraints_hold], ...) cover these steps.  What
+    the recorded accuracy constraint means under any valuation: *)
+Theorem C09_inexact_proximal_constraint_meaning :
+  forall (E : ips) (opt : ipopt) (rho : nat -> E) (phi : nat -> R) (n e : nat) (x0 : pdict) (gamma : Q),
+    DictLemmas.NoDupKeys nat x0 -> 0 < Q2R gamma ->
+    (holds rho phi (ip_cons opt n e x0 gamma) <->
+     match opt with
+     | PDgapI =>
+         nrm2 (vadd (vsub (rho (S (S n))) (evalP rho x0)) (vscal (Q2R gamma) (rho n))) / 2
+         + Q2R gamma * (phi (S e) - phi e - inner (rho n) (vsub (rho (S (S n))) (rho (S n)))) <= phi (S (S e))
+     | PDgapII => nrm2 (rho n) / 2 <= phi (S e)
+     | PDgapIII =>
+         Q2R gamma * (phi (S e) - phi e
+                      - inner (vscal (1 / Q2R gamma) (vsub (evalP rho x0) (rho n))) (vsub (rho n) (rho (S (S n)))))
+         <= phi (S (S e))
+     end).
+Proof. exact (@iprox_constraint_meaning_cases). Qed.
+Print Assumptions C09_inexact_proximal_constraint_meaning.
+
+(** the criterion of the specification is the primal-dual gap of the proximal problem (Spec/StepsSpec.v [pd_gap], the
+    docstring's Phi_p(x) - Phi_d(v)) at the dual point of the option *)
+Theorem C09_inexact_proximal_specification_is_primal_dual_gap :
+  forall (E : ips) (W : @world E) (f : nat) (opt : ipopt) (gamma : R) (x0 : E),
+    0 < gamma ->
+    let r := iprox W f opt gamma x0 in
+    let w := fst (fst (fst (fst r))) in let v := snd (fst (fst (fst r))) in let fw := snd (fst (fst r)) in
+    let x := fst (fst (snd (fst r))) in let gx := snd (fst (snd (fst r))) in let fx := snd (snd (fst r)) in
+    match opt with
+    | PDgapI => StepsSpec.pd_gap gamma x0 x fx v w fw
+    | PDgapII => StepsSpec.pd_gap gamma x0 x fx gx x fx
+    | PDgapIII => StepsSpec.pd_gap gamma x0 x fx (vscal (1 / gamma) (vsub x0 x)) w fw
+    end <= snd r.
+Proof. exact (@iprox_spec_is_pd_gap). Qed.
+Print Assumptions C09_inexact_proximal_specification_is_primal_dual_gap.
+
+(** Non-vacuity: x0 = Point(); inexact_proximal_step(x0, f, 1/2, 'PD_gapI'); inexact_proximal_step(x0, f, 1, 'PD_gapII');
+    inexact_proximal_step(x0, f, 2, 'PD_gapIII')  on f(x) = x^2 with the exact proximal operator (accuracy 0) *)
+Example C09_inexact_proximal_example :
+  forall vs : (nat -> R1) * (nat -> R),
+  mwf inexact_prox_program minit = true /\ steps_ok sq_steps_world inexact_prox_program = true /\
+  Forall op_nodup inexact_prox_program /\ forallb linopt_dir_nonzero inexact_prox_program = true /\
+  m_np (mrun inexact_prox_program minit) = 10%nat /\ m_ne (mrun inexact_prox_program minit) = 8%nat /\
+  List.length (m_samples (mrun inexact_prox_program minit)) = 5%nat /\
+  List.length (m_cons (mrun inexact_prox_program minit)) = 3%nat /\
+  fst (wrun sq_steps_world inexact_prox_program minit vs) 3%nat = (Q2R 1 * fst vs 0%nat + 0) / (1 + 2 * Q2R (1 # 2)) /\
+  snd (wrun sq_steps_world inexact_prox_program minit vs) 2%nat = 0 /\
+  (forall f c, In (f, c) (m_cons (mrun inexact_prox_program minit)) ->
+     holds (fst (wrun sq_steps_world inexact_prox_program minit vs)) (snd (wrun sq_steps_world inexact_prox_program minit vs)) c) /\
+  all_satisfied (fst (wrun sq_steps_world inexact_prox_program minit vs)) (snd (wrun sq_steps_world inexact_prox_program minit vs))
+    (run_plan plan_ConvexFunction (fstate_of (fun _ => 0%Q) (mrun inexact_prox_program minit) 0)).
+Proof. exact inexact_prox_example. Qed.
